@@ -5,6 +5,7 @@ import (
 	"errors"
 	"fmt"
 	"math/rand/v2"
+	"runtime"
 	"strings"
 	"sync"
 	"sync/atomic"
@@ -88,10 +89,18 @@ func c14Rounds(r *kit.Run, idx int64, rng *rand.Rand) {
 		for w := 0; w < workers; w++ {
 			seeds = append(seeds, rng.Uint64())
 		}
+		// operations started through the library may leave their goroutine
+		// without returning (runtime.Goexit, which is what testing.T.FailNow
+		// does): the goroutine was started by Launch and must be accounted for
+		goexit := mode >= 2 && rng.IntN(3) == 0
+		desc["some_operations_end_in_goexit"] = goexit
 		body := func(w int) {
 			<-release
 			speed.Pace(w, workers, seeds[w])
 			stamps[w].Store(kit.Stamp())
+			if goexit && seeds[w]%3 == 0 {
+				runtime.Goexit()
+			}
 		}
 		ctx, cancelAll := context.WithCancel(context.Background())
 		var violation string
@@ -128,6 +137,17 @@ func c14Rounds(r *kit.Run, idx int64, rng *rand.Rand) {
 					wg.DoTimes(ctx, workers, op)
 				} else {
 					op.StartGroup(ctx, wg, workers)
+				}
+				if rng.IntN(3) == 0 {
+					// a count that is not positive starts nothing and leaves the
+					// counter alone
+					zero := -rng.IntN(3)
+					if p, pv, _ := kit.Guard(func() { wg.DoTimes(ctx, zero, op) }); p {
+						note(fmt.Sprintf("DoTimes(%d) panicked: %v", zero, pv))
+					}
+					if got := wg.Num(); got != workers {
+						note(fmt.Sprintf("Num()=%d after DoTimes(%d) on a group tracking %d workers", got, zero, workers))
+					}
 				}
 			case 4:
 				for w := 0; w < workers; w++ {
